@@ -206,4 +206,16 @@ def partial_counter(prog, cls, summary, path_list):
 
 def update_paths(prog, cls, unroll=2):
     s = prog.summarise(cls, "update")
-    return s, paths(s.events, unroll=unroll)
+    ps = paths(s.events, unroll=unroll)
+    # a branch that compares a drawn position with a length / counter (`slot == len(xs)` with slot a random index on
+    # some arms) is decided by arithmetic on the reservoir's fill level that these rules do not do: no verdict
+    for p in ps:
+        for g in p.guards:
+            for t in ir.subterms(g):
+                if t[0] == "cmp" and t[1] in ("==", "!=", "<", "<=", ">", ">=") and \
+                        any(x[0] == "draw" and x[2].rsplit(".", 1)[-1] in ("randrange", "randint")
+                            for side in t[2:4] for x in ir.subterms(side)) and \
+                        not any(side[0] == "const" for side in t[2:4]):
+                    raise AnalysisError(f"{cls.name}.update branches on {ir.show_nl(t)[:120]}: a drawn position is compared "
+                                        f"with a length / counter; this arithmetic is not decided")
+    return s, ps
